@@ -1,4 +1,393 @@
-//! C10 monitor (not written yet).
-use crate::ctx::Ctx;
+//! C10 — untyped values survive annotate, encode and decode at their type.
+use super::common::*;
+use crate::conv::*;
+use crate::ctx::{catch, hex, Ctx};
+use crate::gen::types::*;
+use crate::gen::values::*;
+use crate::model::wire::{encodable, mu_records};
+use crate::model::*;
+use crate::rng::{hash_str, Rng};
+use candid::types::value::{IDLField, IDLValue, VariantValue};
+use candid::types::Label;
+use candid::IDLArgs;
+use serde_json::json;
 
-pub fn run(_ctx: &mut Ctx) {}
+/// Does a reference type (func/service) in `t` mention a record that contains itself? Decoding such a
+/// reference at its own type is affected by the documented wire-side normalisation (see DESIGN §4).
+fn mentions_mu_in_reference(env: &REnv, t: &RType) -> bool {
+    // flatten through the reference encoder's view: any µ-record in the environment reachable from a func/service
+    fn reach(env: &REnv, t: &RType, seen: &mut Vec<bool>, inside_ref: bool, mu: &[bool]) -> bool {
+        match t {
+            RType::Ref(i) => {
+                if inside_ref && mu[*i] {
+                    return true;
+                }
+                if seen[*i + if inside_ref { env.0.len() } else { 0 }] {
+                    return false;
+                }
+                seen[*i + if inside_ref { env.0.len() } else { 0 }] = true;
+                reach(env, &env.0[*i], seen, inside_ref, mu)
+            }
+            RType::Opt(x) | RType::Vec(x) => reach(env, x, seen, inside_ref, mu),
+            RType::Record(fs) | RType::Variant(fs) => fs.iter().any(|f| reach(env, &f.1, seen, inside_ref, mu)),
+            RType::Func { args, rets, .. } => args.iter().chain(rets.iter()).any(|x| reach(env, x, seen, true, mu)),
+            RType::Service(ms) => ms.iter().any(|m| reach(env, &m.1, seen, true, mu)),
+            _ => false,
+        }
+    }
+    // µ-records of the *named* environment: definitions that are records containing themselves through record fields
+    let flat_mu = named_mu(env);
+    let mut seen = vec![false; env.0.len() * 2];
+    reach(env, t, &mut seen, false, &flat_mu)
+}
+
+/// definitions whose values would have to contain themselves (through record fields, inline or by reference)
+fn named_mu(env: &REnv) -> Vec<bool> {
+    fn rec_reaches(env: &REnv, t: &RType, s: &[bool]) -> bool {
+        match t {
+            RType::Ref(j) => s[*j],
+            RType::Record(fs) => fs.iter().any(|f| rec_reaches(env, &f.1, s)),
+            _ => false,
+        }
+    }
+    let n = env.0.len();
+    let mut s: Vec<bool> = env.0.iter().map(|t| matches!(env.unfold(t), Some(RType::Record(_)))).collect();
+    loop {
+        let mut changed = false;
+        for i in 0..n {
+            if s[i] && !rec_reaches(env, &env.0[i], &s) {
+                s[i] = false;
+                changed = true;
+            }
+        }
+        if !changed {
+            return s;
+        }
+    }
+}
+
+/// Typing with the allowances of the property: nat at int, anything at reserved, null at opt.
+/// None = a corner the property leaves open (do not judge).
+fn lenient_type(env: &REnv, v: &IDLValue, t: &RType) -> Option<bool> {
+    let t = env.unfold(t)?;
+    Some(match (v, t) {
+        (_, RType::Reserved) => true,
+        (IDLValue::Null, RType::Null) => true,
+        (IDLValue::Null | IDLValue::None, RType::Opt(_)) => true,
+        (IDLValue::Reserved, RType::Opt(_)) => return None,
+        (IDLValue::Opt(x), RType::Opt(u)) => lenient_type(env, x, u)?,
+        (IDLValue::Bool(_), RType::Bool) => true,
+        (IDLValue::Nat(_), RType::Nat) | (IDLValue::Nat(_), RType::Int) | (IDLValue::Int(_), RType::Int) => true,
+        (IDLValue::Nat8(_), RType::Nat8)
+        | (IDLValue::Nat16(_), RType::Nat16)
+        | (IDLValue::Nat32(_), RType::Nat32)
+        | (IDLValue::Nat64(_), RType::Nat64)
+        | (IDLValue::Int8(_), RType::Int8)
+        | (IDLValue::Int16(_), RType::Int16)
+        | (IDLValue::Int32(_), RType::Int32)
+        | (IDLValue::Int64(_), RType::Int64)
+        | (IDLValue::Float32(_), RType::Float32)
+        | (IDLValue::Float64(_), RType::Float64) => true,
+        (IDLValue::Float64(_), RType::Float32) => return None,
+        (IDLValue::Number(_), _) => return None,
+        (IDLValue::Text(_), RType::Text) => true,
+        (IDLValue::Principal(_), RType::Principal) => true,
+        (IDLValue::Service(_), RType::Service(_)) => true,
+        (IDLValue::Func(..), RType::Func { .. }) => true,
+        (IDLValue::Blob(_), RType::Vec(u)) => matches!(env.unfold(u), Some(RType::Nat8)),
+        (IDLValue::Vec(xs), RType::Vec(u)) => {
+            let mut ok = true;
+            for x in xs {
+                ok &= lenient_type(env, x, u)?;
+            }
+            ok
+        }
+        (IDLValue::Record(fs), RType::Record(ts)) => {
+            // every field of the type must be present (or be opt/null/reserved: the annotation fills those in)
+            let mut ok = true;
+            for (id, ft) in ts {
+                match fs.iter().find(|f| f.id.get_id() == *id) {
+                    Some(f) => ok &= lenient_type(env, &f.val, ft)?,
+                    None => {
+                        if !env.is_nullable(ft) {
+                            ok = false;
+                        }
+                    }
+                }
+            }
+            // surplus fields in the value: the property does not say; leave open
+            if fs.iter().any(|f| !ts.iter().any(|t| t.0 == f.id.get_id())) {
+                return None;
+            }
+            ok
+        }
+        (IDLValue::Variant(x), RType::Variant(ts)) => match ts.iter().find(|t| t.0 == x.0.id.get_id()) {
+            Some((_, ft)) => lenient_type(env, &x.0.val, ft)?,
+            None => false,
+        },
+        _ => false,
+    })
+}
+
+/// One edit that (usually) makes the value ill-typed. Returns a description.
+fn near_miss(rng: &mut Rng, v: &mut IDLValue, depth: usize) -> Option<&'static str> {
+    // descend randomly
+    if depth < 6 && rng.chance(2, 3) {
+        match v {
+            IDLValue::Opt(x) => return near_miss(rng, x, depth + 1),
+            IDLValue::Vec(xs) if !xs.is_empty() => {
+                let k = rng.usize(xs.len());
+                return near_miss(rng, &mut xs[k], depth + 1);
+            }
+            IDLValue::Record(fs) if !fs.is_empty() => {
+                let k = rng.usize(fs.len());
+                return near_miss(rng, &mut fs[k].val, depth + 1);
+            }
+            IDLValue::Variant(x) => return near_miss(rng, &mut x.0.val, depth + 1),
+            _ => {}
+        }
+    }
+    let (nv, what): (IDLValue, &'static str) = match &*v {
+        IDLValue::Nat8(n) => (IDLValue::Nat16(*n as u16), "width:nat8->nat16"),
+        IDLValue::Nat16(n) => (IDLValue::Nat8(*n as u8), "width:nat16->nat8"),
+        IDLValue::Nat32(n) => (IDLValue::Int32(*n as i32), "sign:nat32->int32"),
+        IDLValue::Nat64(n) => (IDLValue::Nat32(*n as u32), "width:nat64->nat32"),
+        IDLValue::Int8(n) => (IDLValue::Int16(*n as i16), "width:int8->int16"),
+        IDLValue::Int16(n) => (IDLValue::Nat16(*n as u16), "sign:int16->nat16"),
+        IDLValue::Int32(n) => (IDLValue::Int64(*n as i64), "width:int32->int64"),
+        IDLValue::Int64(n) => (IDLValue::Nat64(*n as u64), "sign:int64->nat64"),
+        IDLValue::Int(i) => (IDLValue::Text(i.to_string()), "kind:int->text"),
+        IDLValue::Nat(n) => (IDLValue::Nat64(n.0.to_u64_digits().first().copied().unwrap_or(0)), "width:nat->nat64"),
+        IDLValue::Bool(b) => (IDLValue::Nat8(*b as u8), "kind:bool->nat8"),
+        IDLValue::Text(s) => (IDLValue::Blob(s.as_bytes().to_vec()), "kind:text->blob"),
+        IDLValue::Float32(f) => (IDLValue::Nat32(f.to_bits()), "kind:float32->nat32"),
+        IDLValue::Float64(f) => (IDLValue::Int64(f.to_bits() as i64), "kind:float64->int64"),
+        IDLValue::Principal(p) => (IDLValue::Service(*p), "reference:principal->service"),
+        IDLValue::Service(p) => (IDLValue::Func(*p, "m".into()), "reference:service->func"),
+        IDLValue::Func(p, _) => (IDLValue::Principal(*p), "reference:func->principal"),
+        IDLValue::Blob(b) => (IDLValue::Text(String::from_utf8_lossy(b).to_string()), "kind:blob->text"),
+        IDLValue::Record(fs) if !fs.is_empty() => {
+            let mut fs = fs.clone();
+            let k = rng.usize(fs.len());
+            fs.remove(k);
+            (IDLValue::Record(fs), "record:field-removed")
+        }
+        IDLValue::Record(_) => (IDLValue::Vec(vec![]), "kind:record->vec"),
+        IDLValue::Variant(x) => {
+            let mut id = x.0.id.get_id().wrapping_add(1 + rng.below(5) as u32);
+            if rng.bool() {
+                id = rng.next() as u32;
+            }
+            (
+                IDLValue::Variant(VariantValue(
+                    Box::new(IDLField {
+                        id: Label::Id(id),
+                        val: x.0.val.clone(),
+                    }),
+                    0,
+                )),
+                "variant:other-tag",
+            )
+        }
+        IDLValue::Vec(xs) => {
+            let mut xs = xs.clone();
+            xs.push(IDLValue::Text("intruder".into()));
+            (IDLValue::Vec(xs), "vec:foreign-element")
+        }
+        IDLValue::Null | IDLValue::None => (IDLValue::Bool(false), "kind:null->bool"),
+        IDLValue::Opt(_) => (IDLValue::Text("x".into()), "kind:opt->text"),
+        _ => return None,
+    };
+    *v = nv;
+    Some(what)
+}
+
+pub fn run(ctx: &mut Ctx) {
+    let cfg = TypeCfg::default();
+    ctx.cases("well-typed", 0.65, |ctx, rng| {
+        let env = gen_env(rng, &cfg);
+        let nt = 1 + rng.usize(3);
+        let cand = gen_types(rng, &cfg, &env, nt);
+        let vg = ValGen::new(&env);
+        let mut fuel = *rng.pick(&[4i64, 20, 60]);
+        let mut ts = Vec::new();
+        let mut vals = Vec::new();
+        for t in cand {
+            if !encodable(&env, &t) {
+                continue;
+            }
+            if let Some(v) = vg.gen(rng, &t, &mut fuel) {
+                ts.push(t);
+                vals.push(v);
+            }
+        }
+        if ts.is_empty() {
+            return;
+        }
+        let names = if rng.chance(2, 3) { gen_names(rng, &env, &ts) } else { Names::new() };
+        let (cenv, cts) = candid_side(&env, &ts, Some(&names));
+        let mut idl = Vec::new();
+        for (t, v) in ts.iter().zip(vals.iter()) {
+            match to_idl(&env, t, v, Some(&names)) {
+                Ok(x) => idl.push(x),
+                Err(_) => return,
+            }
+        }
+        let args = IDLArgs { args: idl };
+        let want: Vec<RValue> = args.args.iter().map(model_value).collect();
+        let label_feature = if names.values().any(|n| n == "_") {
+            "label=_"
+        } else if names.values().any(|n| n.contains(',')) {
+            "label-with-comma"
+        } else {
+            "plain"
+        };
+        let mu_ref = ts.iter().any(|t| mentions_mu_in_reference(&env, t));
+        let input = || {
+            json!({
+                "env": env.to_string(), "types": ts.iter().map(|t| t.to_string()).collect::<Vec<_>>(),
+                "value": args.to_string().chars().take(1200).collect::<String>(),
+                "names": names.iter().map(|(k, v)| format!("{k}={v:?}")).collect::<Vec<_>>(),
+            })
+        };
+        // 1. annotation keeps the meaning
+        for from_parser in [true, false] {
+            match catch(|| args.clone().annotate_types(from_parser, &cenv, &cts)) {
+                Err(p) => ctx.violation(&format!("panic|annotate_types({from_parser})|{}", p.sig()), &p.message, input()),
+                Ok(Err(e)) => ctx.violation(
+                    &format!("annotate-rejects-well-typed|from_parser={from_parser}|{}", err_class(&e)),
+                    &format!("annotate_types failed on a value of the type: {e}"),
+                    input(),
+                ),
+                Ok(Ok(a2)) => {
+                    let got: Vec<RValue> = a2.args.iter().map(model_value).collect();
+                    if let Some(d) = diff_all(&want, &got) {
+                        ctx.violation(
+                            &format!("annotate-changes-meaning|from_parser={from_parser}"),
+                            &format!("before (left) vs after annotation (right): {d}"),
+                            input(),
+                        );
+                    }
+                }
+            }
+        }
+        // 2. encode at t, decode at t and with no type
+        let bytes = match catch(|| args.to_bytes_with_types(&cenv, &cts)) {
+            Err(p) => {
+                ctx.violation(&format!("panic|to_bytes_with_types|{}", p.sig()), &p.message, input());
+                return;
+            }
+            Ok(Err(e)) => {
+                ctx.violation(&format!("encode-rejects-well-typed|{}", err_class(&e)), &e.to_string(), input());
+                return;
+            }
+            Ok(Ok(b)) => b,
+        };
+        match catch(|| IDLArgs::from_bytes_with_types(&bytes, &cenv, &cts)) {
+            Err(p) => {
+                let sig = if label_feature == "label-with-comma" && p.location.contains("value.rs") {
+                    format!("panic|{}|label-with-comma", p.location)
+                } else {
+                    format!("panic|from_bytes_with_types|{}", p.sig())
+                };
+                ctx.violation(&sig, &p.message, json!({"bytes": hex(&bytes), "case": input()}))
+            }
+            Ok(Err(e)) if mu_ref => ctx.violation(
+                "decode-at-same-type-fails|reference-type-mentions-self-containing-record",
+                &format!("decoding at the type the value was encoded at fails: {}", err_class(&e)),
+                json!({"bytes": hex(&bytes), "case": input()}),
+            ),
+            Ok(Err(e)) => ctx.violation(
+                &format!("decode-at-same-type-fails|{}", err_class(&e)),
+                &format!("decoding at the type the value was encoded at fails: {}", e.to_string().lines().next().unwrap_or("")),
+                json!({"bytes": hex(&bytes), "case": input()}),
+            ),
+            Ok(Ok(back)) => {
+                let got: Vec<RValue> = back.args.iter().map(model_value).collect();
+                if let Some(d) = diff_all(&want, &got) {
+                    let sig = if mu_ref && d.contains("vs null") {
+                        "decode-at-same-type-differs|reference-type-mentions-self-containing-record".to_string()
+                    } else if label_feature == "label=_" && d.contains("record fields") {
+                        "decode-at-same-type-differs|expected-field-named-underscore-dropped".to_string()
+                    } else {
+                        format!("decode-at-same-type-differs|{label_feature}")
+                    };
+                    ctx.violation(&sig, &format!("original (left) vs decoded (right): {d}"), json!({"bytes": hex(&bytes), "case": input()}));
+                } else {
+                    ctx.count("agree:typed-roundtrip");
+                    // structural equality of IDLValue as well (labels compare by id)
+                    if let Ok(Ok(ann)) = catch(|| args.clone().annotate_types(true, &cenv, &cts)) {
+                        if ann != back && !args.to_string().contains("NaN") {
+                            ctx.violation("decode-at-same-type-differs|IDLValue-eq", "model values equal but IDLValue::eq says different", json!({"bytes": hex(&bytes), "case": input()}));
+                        }
+                    }
+                }
+            }
+        }
+        match catch(|| IDLArgs::from_bytes(&bytes)) {
+            Err(p) => ctx.violation(&format!("panic|from_bytes|{}", p.sig()), &p.message, json!({"bytes": hex(&bytes)})),
+            Ok(Err(e)) => ctx.violation(&format!("untyped-decode-fails|{}", err_class(&e)), &e.to_string(), json!({"bytes": hex(&bytes), "case": input()})),
+            Ok(Ok(back)) => {
+                let got: Vec<RValue> = back.args.iter().map(model_value).collect();
+                if let Some(d) = diff_all(&want, &got) {
+                    ctx.violation("untyped-decode-differs", &format!("original (left) vs decoded without types (right): {d}"), json!({"bytes": hex(&bytes), "case": input()}));
+                } else {
+                    ctx.count("agree:untyped-roundtrip");
+                }
+            }
+        }
+        ctx.count(&format!("cover:labels:{label_feature}"));
+        if mu_records(&env).iter().any(|b| *b) {
+            ctx.count("cover:env-with-self-containing-record");
+        }
+        ctx.nontrivial(hash_str(&format!("{:?}|{}", ts.iter().map(|t| shape(&env, t, 4)).collect::<Vec<_>>(), bytes.len())));
+        ctx.sample(input);
+    });
+    ctx.cases("near-miss", 0.35, |ctx, rng| {
+        let env = gen_env(rng, &cfg);
+        let cand = gen_types(rng, &cfg, &env, 1);
+        let vg = ValGen::new(&env);
+        let mut fuel = 30i64;
+        let t = &cand[0];
+        if !encodable(&env, t) {
+            return;
+        }
+        let Some(v) = vg.gen(rng, t, &mut fuel) else { return };
+        let Ok(mut idl) = to_idl(&env, t, &v, None) else { return };
+        let Some(what) = near_miss(rng, &mut idl, 0) else { return };
+        let (cenv, cts) = candid_side(&env, std::slice::from_ref(t), None);
+        let verdict = lenient_type(&env, &idl, t);
+        let input = || json!({"env": env.to_string(), "type": t.to_string(), "value": format!("{idl:?}").chars().take(800).collect::<String>(), "edit": what});
+        match verdict {
+            None => {
+                ctx.count("excluded:open-corner");
+            }
+            Some(true) => {
+                ctx.count("near-miss:still-well-typed");
+            }
+            Some(false) => {
+                ctx.count(&format!("cover:near-miss:{what}"));
+                match catch(|| idl.annotate_type(true, &cenv, &cts[0])) {
+                    Err(p) => ctx.violation(&format!("panic|annotate_type|{}", p.sig()), &p.message, input()),
+                    Ok(Ok(a)) => ctx.violation(
+                        &format!("annotate-accepts-ill-typed|{what}"),
+                        &format!("annotate_type(true) returned {a:?} for a value that is not of the type"),
+                        input(),
+                    ),
+                    Ok(Err(_)) => ctx.count("agree:annotate-rejects"),
+                }
+                let args = IDLArgs { args: vec![idl.clone()] };
+                match catch(|| args.to_bytes_with_types(&cenv, &cts)) {
+                    Err(p) => ctx.violation(&format!("panic|to_bytes_with_types|{}", p.sig()), &p.message, input()),
+                    Ok(Ok(b)) => ctx.violation(
+                        &format!("encode-accepts-ill-typed|{what}"),
+                        &format!("typed encoding produced {} for a value that is not of the type", hex(&b)),
+                        input(),
+                    ),
+                    Ok(Err(_)) => ctx.count("agree:encode-rejects"),
+                }
+                ctx.nontrivial(hash_str(&format!("nm|{what}|{}", shape(&env, t, 3))));
+            }
+        }
+    });
+}
